@@ -14,9 +14,10 @@ GUARDS = [("StrictFilter", ["PrefetchTrafficConfined"]),
           ("CloseOnFailure", ["WaiterClosedAtEnd"]),
           ("HonourNoPrefetch", ["NoPrefetchLandmarkNoTraffic"]),
           ("CapAtBlobSize", ["ConfiguredSizeCapped"]),
-          ("BgAllFiles", ["AfterBackgroundFetchOfflineReadable"]),
+          ("BgAllFiles", ["AfterBackgroundFetchOfflineReadable", "SuccessMeansCached"]),
           ("WaitHonoursTimeout", ["WaitNeverStuck"]),
-          ("ThresholdOnEffective", ["WaitNilOnlyIfEndedOrAsync"])]
+          ("ThresholdOnEffective", ["WaitNilOnlyIfEndedOrAsync"]),
+          ("FailOnCacheError", ["SuccessMeansCached"])]
 INTERNAL = ("TypeOK", "OnceRunsOnce")
 
 
@@ -90,16 +91,16 @@ def variants(base, lay, thorough):
         v("bg", 10 ** 6, 0, nw=0, nb=1, tmo=1000, rd=([pf] if base["id"] == "big" else [2, pf]), ro=1, pt=part)   # background fetch, prioritized tasks, single-chunk reads, registry off at the end
     elif lm == "noprefetch":
         v("w", 10 ** 6, 0, np=2, nw=1, rd=[2])
-        v("bg", size // 2, 1, nw=1, nb=1, rd=[pf], ro=1, pt=part)
+        v("bg", size // 2, 1, nw=(1 if thorough else 0), nb=1, rd=[pf], ro=1, pt=(part if thorough else ()))
     else:
         mid = off[1] if len(off) > 1 else size // 2
         v("exact", mid, 0, nw=1, rd=[1, 2])                                     # configured size = offset of a file ( < versus <= )
-        v("mid", mid + 150, mid, nw=1, nb=1, pcs=2 * base["cs"], rd=[pf], ro=1, pt=part)  # ends inside that file; threshold just below
+        v("mid", mid + 150, mid, nw=(1 if thorough else 0), nb=1, pcs=2 * base["cs"], rd=[pf], ro=1, pt=(part if thorough else ()))  # ends inside that file; threshold just below
         v("big", size + 1000, size + 500, nw=2, rd=[nf])                        # beyond the blob: capped, and the cap is below the threshold
     if base["id"] == "big":
         V = [x for x in V if x["id"] == "big.bg"]        # megabytes per read: only the scenario it was built for
     if not thorough:
-        keep = {"lm.w", "lm.async", "lm.below", "lmdot.bg", "nolm.w", "nolm.bg", "none.exact", "none.big", "grp.bg", "big.bg"}
+        keep = {"lm.w", "lm.async", "lm.below", "lmdot.bg", "nolm.w", "nolm.bg", "none.exact", "none.mid", "none.big", "grp.bg", "big.bg"}
         V = [x for x in V if x["id"] in keep]
     return V
 
@@ -294,6 +295,25 @@ def check(run):
                     dw = directed_walk(ini, ed, preds)
                     if dw:
                         walks.append(dw)
+        # ... a chunk-cache error (Add fails) during the caching walk of background fetch / prefetch
+        extra = []
+        if v["nb"] > 0:
+            extra.append([lambda a: a["act"] == "BgFinish" and a.get("cause") == "cachefail"])
+            extra.append([lambda a: a["act"] == "PrefetchEnd", lambda a: a["act"] == "BgFinish" and a.get("cause") == "cachefail"])
+        if v["_sc"]["lm"] != "noprefetch":
+            extra.append([lambda a: a["act"] == "ReaderCache" and a.get("cause") == "cachefail", lambda a: a["act"] == "PrefetchEnd"])
+        # ... a prefetch whose caching walk fails on the registry, then a healthy background fetch, registry off, full reads
+        if v["nb"] > 0 and v["_sc"]["lm"] != "noprefetch":
+            for f in v["rd"]:
+                extra.append([lambda a: a["act"] == "ReaderCache" and a.get("cause") == "fail",
+                              lambda a: a["act"] == "PrefetchEnd",
+                              lambda a: a["act"] == "BgFinish" and a.get("cause") == "ok",
+                              lambda a: a["act"] == "RegistryOff",
+                              lambda a, f=f: a["act"] == "Read" and a["f"] == f])
+        for preds in extra:
+            dw = directed_walk(ini, ed, preds)
+            if dw:
+                walks.append(dw)
         v["walks"] = [[{k: x for k, x in s.items() if k not in ("post", "req")} | {"act": s["act"]} for s in w] for w in walks]
         nsteps += sum(len(w) for w in v["walks"])
         run.cov["stages"].append(dict(stage="edge-cover", graph=sid, **st))
